@@ -279,10 +279,12 @@ def main(ck):
         g1, g2 = key
         a, b = sorted((typ[g1], typ[g2]), key=ORDER.get)
         band = BAND_PRIM if (a, b) in NON_CCD else BAND_CCD
-        dm = thr + 10 * band + 1e-3
+        dm = 1.5 * thr + 10 * band + 1e-3
         dist = lib.mj_geomDistance(m, d, g1, g2, dm, None)
         stats['pairs_checked'] += 1
-        if (a, b) == ('box', 'box') and thr > 0 and -band <= dist <= thr + band:
+        if (a, b) == ('box', 'box') and thr > 0 and -band <= dist <= 1.5 * thr + band:
+          # (the SAT collider measures the separation along its best axis, which under-estimates vertex-vertex / vertex-edge
+          #  distances: 13 % observed, so pairs slightly beyond the threshold may still get a contact)
           dontcare.add(key)
         elif dist < thr - band:
           expected.add(key)
